@@ -12,7 +12,7 @@ Local Open Scope Z_scope.
    for EVERY state, environment (heights, prices, decimals) and call, including an infraction in the current block
    (repaired: SlashAssets now walks the undelegations when SlashEventHeight <= BlockHeight). *)
 Theorem C04_step_meets_statement : forall s e c,
-  st_nonneg s = true -> env_sane e = true ->
+  st_nonneg s = true -> env_sane e = true -> pending_agrees s = true ->
   step_ok s e c (fst (step s e c)) (snd (step s e c)) = true.
 Proof. exact step_meets_statement. Qed.
 Print Assumptions C04_step_meets_statement.
@@ -34,11 +34,16 @@ Theorem C04_nonneg_preserved : forall s e c, st_nonneg s = true -> env_sane e = 
 Proof. exact step_nonneg. Qed.
 Print Assumptions C04_nonneg_preserved.
 
-Theorem C04_run_meets_statement : forall h s, st_nonneg s = true -> hist_wf s h = true -> all_steps_ok s h = true.
+(* the pool's pending figure keeps agreeing with the live records across every slash call (the C03 aggregate is not disturbed) *)
+Theorem C04_pending_agreement_preserved : forall s e c, pending_agrees s = true -> pending_agrees (fst (step s e c)) = true.
+Proof. exact step_pending. Qed.
+Print Assumptions C04_pending_agreement_preserved.
+
+Theorem C04_run_meets_statement : forall h s, st_nonneg s = true -> pending_agrees s = true -> hist_wf s h = true -> all_steps_ok s h = true.
 Proof.
-  induction h as [|[e c] t IH]; intros s Hnn H; simpl in *; [reflexivity|].
+  induction h as [|[e c] t IH]; intros s Hnn Hpa H; simpl in *; [reflexivity|].
   apply andb_prop in H. destruct H as [H1 Ht].
-  rewrite step_meets_statement by assumption. apply IH; [apply step_nonneg; assumption|assumption].
+  rewrite step_meets_statement by assumption. apply IH; [apply step_nonneg; assumption|apply step_pending; assumption|assumption].
 Qed.
 Print Assumptions C04_run_meets_statement.
 
@@ -81,7 +86,7 @@ Qed.
 Print Assumptions C04_never_panics.
 
 Theorem C04_zero_value_is_an_error : forall s e q, priced (v_assets e) (q_op q) (s_pools s) = true ->
-  value_of (v_assets e) (q_op q) (s_pools s) <= 0 -> fst (slash s e q) = s /\ snd (slash s e q) = RErr.
+  value_of_pool (v_assets e) (q_op q) (s_pools s) <= 0 -> fst (slash s e q) = s /\ snd (slash s e q) = RErr.
 Proof. exact slash_zero_value. Qed.
 Print Assumptions C04_zero_value_is_an_error.
 
@@ -102,7 +107,7 @@ Print Assumptions C04_idempotent.
 Definition ex_assets := [mkAI 0 PcOk 1 0 true 0; mkAI 1 PcOk 25 1 true 2].
 Definition ex_env (h : Z) := mkEnv h ex_assets [(1, 0)] (Some 1).
 Definition ex_state := mkSt
-  [mkPool 0 0 100 50 (100 * P) (40 * P); mkPool 0 1 1000 0 (1000 * P) 0; mkPool 5 0 77 0 (77 * P) (77 * P)]
+  [mkPool 0 0 100 50 (100 * P) (40 * P); mkPool 0 1 1000 0 (1000 * P) 0; mkPool 5 0 77 5 (77 * P) (77 * P)]
   [mkRec 1 0 8 7 0 30 30 11; mkRec 2 0 10 7 0 20 20 12; mkRec 3 5 10 9 0 5 5 13]
   [mkDeleg 7 0 0 (60 * P) 50; mkDeleg 8 1 0 (1000 * P) 0; mkDeleg 9 0 5 (77 * P) 5]
   [mkSL 0 0 [7]; mkSL 0 1 [8]; mkSL 5 0 [9]]
@@ -111,16 +116,16 @@ Definition ex_call (event : Z) := CSlash (mkPrm 0 1 (SidRaw 42) true 100 1 0 eve
 
 (* hypotheses of the main theorem are satisfiable, the slash executes and changes the state *)
 Example C04_witness_executes :
-  st_nonneg ex_state = true /\ env_sane (ex_env 12) = true /\
+  st_nonneg ex_state = true /\ env_sane (ex_env 12) = true /\ pending_agrees ex_state = true /\
   snd (step ex_state (ex_env 12) (ex_call 10)) = ROk /\
   st_eqb ex_state (fst (step ex_state (ex_env 12) (ex_call 10))) = false /\
   step_ok ex_state (ex_env 12) (ex_call 10) (fst (step ex_state (ex_env 12) (ex_call 10))) ROk = true.
 Proof. vm_compute. repeat split; reflexivity. Qed.
 
 Example C04_witness_history :
-  st_nonneg ex_state = true /\ hist_wf ex_state [(ex_env 12, ex_call 10); (ex_env 12, ex_call 10); (ex_env 13, COpReason 0 9 40 (P / 10) 2);
+  st_nonneg ex_state = true /\ pending_agrees ex_state = true /\ hist_wf ex_state [(ex_env 12, ex_call 10); (ex_env 12, ex_call 10); (ex_env 13, COpReason 0 9 40 (P / 10) 2);
                     (ex_env 14, CDogReason (Some 0) 9 40 (P / 10) 2); (ex_env 15, CDogReason None 9 40 (P / 10) 2)] = true.
-Proof. vm_compute. split; reflexivity. Qed.
+Proof. vm_compute. repeat split; reflexivity. Qed.
 
 (* full slash: pools emptied, shares of the listed stakers cleared, lists deleted *)
 Example C04_witness_full_slash :
@@ -143,6 +148,15 @@ Proof. vm_compute. repeat split; reflexivity. Qed.
 
 (* regression for the repaired division by zero (SlashAssets now returns ErrValueIsNilOrZero when the operator's staking +
    unbonding value is not positive): the call errs and the state is identical, through every entry point *)
+(* a phantom pending figure (pool says 50 unbonding, but only 20 are in live records — e.g. a completed undelegation whose
+   figure was not fully released): the code's proportion is computed over the inflated value, so the executed slash does NOT
+   satisfy the statement, whose value counts the live records *)
+Example C04_phantom_pending_breaks_statement :
+  let s := mkSt [mkPool 0 0 100 50 (100 * P) (40 * P)] [mkRec 2 0 10 7 0 20 20 12] [] [] [] in
+  pending_agrees s = false /\ snd (step s (ex_env 12) (ex_call 10)) = ROk /\
+  step_ok s (ex_env 12) (ex_call 10) (fst (step s (ex_env 12) (ex_call 10))) ROk = false.
+Proof. vm_compute. repeat split; reflexivity. Qed.
+
 Example C04_zero_value_errs :
   let s0 := mkSt [mkPool 0 0 0 0 0 0] [mkRec 1 0 11 7 0 5 0 3] [] [] [] in
   step s0 (ex_env 12) (ex_call 10) = (s0, RErr) /\
